@@ -291,13 +291,21 @@ package nsqd
 // The TLS gate in front of the router (C11): with TLS required and this listener being the plaintext one, the request is answered
 // 403 and NEVER reaches the router (no handler runs); otherwise it is handed to the router exactly once and ServeHTTP itself
 // writes no status. jRouted / jHdrWrites / jLastStatus: .trusted/jhttp.spec (router.ServeHTTP, ResponseWriter.WriteHeader).
-// RealHTTPSAddr (assumed): never nil (an empty TCPAddr when there is no HTTPS listener; the listener is a TCP listener).
+// RealHTTPSAddr (round 6, area M: was a `trusted` stub, the body is VERIFIED now): never nil - an empty TCPAddr when there is no HTTPS listener, else the listener's
+// address, which is a *net.TCPAddr BECAUSE the HTTPS listener listens on tcp: a fact about the daemon's construction (nsqd.New: tls.Listen("tcp", ..),
+// [https-listener-on-tcp] there; the field is never written again: `immutable`, SSA sweep), required here and at ServeHTTP (the only caller; an entry point of net/http).
+//@ pred r6MHttpsOnTcp(n *NSQD) := n.httpsListener != nil ==> r4ENetworkOf(r5FAddrOf(n.httpsListener)) == "tcp"
+//@ immutable NSQD.httpsListener
 //@ func (n *NSQD) RealHTTPSAddr() *net.TCPAddr
-//@   trusted
-//@   ensures result != nil
+//@   props C11 C10
+//@   nochan
+//@   requires[https-listener-on-tcp] n != nil && r6MHttpsOnTcp(n)
+//@   ensures[real-address] result != nil
+//@   ensures[no-listener-empty-address] n.httpsListener == nil ==> fresh(result) && result.Port == 0
 //@   modifies
 //@ func (s *httpServer) ServeHTTP(w http.ResponseWriter, req *http.Request)
 //@   props C11 C10
 //@   requires s != nil && s.nsqd != nil && s.router != nil && w != nil
+//@   requires[https-listener-on-tcp] r6MHttpsOnTcp(s.nsqd)
 //@   ensures[tls-required-refused] !s.tlsEnabled && s.tlsRequired ==> jRouted == old(jRouted) && jHdrWrites == old(jHdrWrites) + 1 && jLastStatus == 403 && jLastStatusW == w
 //@   ensures[otherwise-routed-once] !(!s.tlsEnabled && s.tlsRequired) ==> jRouted == old(jRouted) + 1 && jRoutedTo == s.router && jRoutedReq == req
